@@ -16,7 +16,8 @@ MANIFEST = dict(
 
 def gen_ops(tier, rng):
     nparams, nvals = 12, 16
-    ops = ['params %d' % nparams, 'vals %d' % nvals]
+    nparams_wide = 70          # one parameter list with more parameters than a machine word has bits (positions 0..69)
+    ops = ['params %d' % nparams, 'vals %d' % nvals, 'wide %d' % nparams_wide]
     nsub = 0
     def val():
         return 'p%d' % rng.randrange(nparams) if rng.random() < 0.25 else 'v%d' % rng.randrange(nvals)
@@ -48,6 +49,36 @@ def gen_ops(tier, rng):
         for j in group:
             for q in range(nparams):
                 ops.append('app S%d p%d' % (j, q))
+    # a wide parameter list: every position bound and asked, also only the high positions, also one position alone
+    for bound in (list(range(nparams_wide)), list(range(31, nparams_wide, 3)), [40], [63, 64, 32]):
+        ops.append('gen')
+        k = nsub
+        nsub += 1
+        for q in bound:
+            ops.append('bind S%d p%d %s' % (k, nparams + q, val()))
+        for q in range(nparams_wide):
+            ops.append('app S%d p%d' % (k, nparams + q))
+    # many bindings (with rebinding) recorded BEFORE the first look-up: the latest binding of each parameter wins however many there are
+    for n in (17, 18, 24, 36, 64, 150):
+        ops.append('gen')
+        k = nsub
+        nsub += 1
+        order = [rng.randrange(nparams_wide) for _ in range(n)] + list(range(0, nparams_wide, 2))
+        for rounds in range(3):
+            for q in order:
+                ops.append('bind S%d p%d %s' % (k, nparams + q, val()))
+        for q in range(nparams_wide):
+            ops.append('app S%d p%d' % (k, nparams + q))
+    # more elementary substitutions than any block of a block allocator holds, each asked again after all of them exist
+    first = nsub
+    for j in range(150 if tier == 'quick' else 1200):
+        ops.append('elem p%d %s' % (nparams + j % nparams_wide, val()))
+        ops.append('app S%d p%d' % (nsub, nparams + j % nparams_wide))
+        nsub += 1
+    for k in range(first, nsub):
+        j = k - first
+        ops.append('app S%d p%d' % (k, nparams + j % nparams_wide))
+        ops.append('app S%d p%d' % (k, nparams + (j + 1) % nparams_wide))
     nhist = 40 if tier == 'quick' else 1500
     for h in range(nhist):
         pool = rng.randint(1, nparams)
